@@ -17,6 +17,12 @@
 (* (default in every cfg); TRUE is the code before fix 69cd14a             *)
 (* (CookiePlaceholder.pack used extCookie) -- kept in Wire_faithful.cfg as  *)
 (* a self-test: the property section must reject it.                        *)
+(*                                                                         *)
+(* Histories of calls (the results of earlier calls stay valid while the    *)
+(* codecs are called again; property section (f)): the state machine over   *)
+(* an allocator that may or may not hand out fresh storage is WireHist.tla  *)
+(* (it EXTENDS this module; switch Recycle), the codecs behind one          *)
+(* interface are section 5 here.                                            *)
 (***************************************************************************)
 EXTENDS Integers, Sequences, FiniteSets, TLC
 
@@ -405,6 +411,66 @@ KeExpect(rs, d) ==
 \* the claim is made for what the project emits: exactly one AEAD algorithm per record
 KeClaimed(rs) == \A i \in DOMAIN rs : rs[i].t = "ae" => Len(rs[i].body) = 1
 
+\* ReadData on a byte stream when every read request is served completely (the
+\* result for the unsegmented stream; the reader itself is in NtsKeStream.tla).
+\* io.ReadFull of n bytes at p: ok / eof / unexpected_eof
+KeAvail(s, p, n) == IF p + n <= Len(s) THEN "nil" ELSE IF p = Len(s) THEN "eof" ELSE "unexpected_eof"
+RECURSIVE KeRefLoop(_, _, _)
+KeRefLoop(s, p, d) ==
+  IF KeAvail(s, p, 4) # "nil" THEN [data |-> d, err |-> KeAvail(s, p, 4)]
+  ELSE
+    LET ty == U16At(s, p)
+        bl == U16At(s, p + 2)
+        t == ty % 32768
+        cr == ty >= 32768
+        q == p + 4
+        n == IF t \in {RecNextproto, RecAead, RecPort, RecError} THEN 2 ELSE bl
+        body == SubSeq(s, q + 1, q + n)
+    IN IF t = RecEom THEN [data |-> d, err |-> "nil"]
+       ELSE IF t \notin {RecNextproto, RecAead, RecCookie, RecServer, RecPort, RecError} /\ cr
+            THEN [data |-> d, err |-> "critical"]
+       ELSE IF KeAvail(s, q, n) # "nil" /\ n > 0 THEN [data |-> d, err |-> KeAvail(s, q, n)]
+       ELSE IF t = RecError THEN [data |-> d, err |-> KeErrOfCode(U16At(body, 0))]
+       ELSE KeRefLoop(s, q + n,
+              CASE t = RecAead -> [d EXCEPT !.algo = U16At(body, 0)]
+                [] t = RecCookie -> [d EXCEPT !.cookies = Append(@, body)]
+                [] t = RecServer -> [d EXCEPT !.server = body]
+                [] t = RecPort -> [d EXCEPT !.port = U16At(body, 0)]
+                [] OTHER -> d)
+KeRefDecode(s) == KeRefLoop(s, 0, KeData0)
+
+(***************************************************************************)
+(* 5. The codecs of the property behind one interface (used by histories   *)
+(*    of calls, WireHist.tla): codec cd, protocol value val in the form of *)
+(*    the sections above, an encoding enc, an observed decoded value d.    *)
+(*      ntp csptp reqtlv resptlv   val: field -> bytes        enc: bytes   *)
+(*      nts                        val: [uid, ck, ph, pt]     enc: bytes   *)
+(*      sck eck                    val: [n, x, y]             enc: bytes   *)
+(*      crypt  (EncryptWithNonce / Decrypt)  val: [n, x, y]   enc: the     *)
+(*             EncryptedServerCookie [n, x, y] (key id = val.n)            *)
+(*      ke     (ExchangeMsg.Pack / ReadData) val: records     enc: bytes   *)
+(***************************************************************************)
+HCodecsAll == Msgs \cup {"nts", "sck", "eck", "crypt", "ke"}
+HEncode(cd, val) ==
+  CASE cd \in Msgs -> EncodeLay(cd, val)
+    [] cd = "nts" -> EncodeNts(val)
+    [] cd = "sck" -> SckEncode(val)
+    [] cd = "eck" -> EckEncode(val)
+    [] cd = "crypt" -> Encrypt(val, val.n)
+    [] cd = "ke" -> KeStream(val)
+\* what a caller observes of a decoded value (nts: DecodePacket, then ProcessRequest)
+NtsObs(b) ==
+  LET d == DecodeNts(b)
+      a == Authenticate(d)
+  IN [err |-> d.err, uid |-> d.uid, ck |-> d.ck, ph |-> d.ph, auth_ok |-> a.ok, rec |-> a.ck]
+HDecode(cd, enc) ==
+  CASE cd \in Msgs -> DecodeLay(cd, enc)
+    [] cd = "nts" -> NtsObs(enc)
+    [] cd = "sck" -> SckDecode(enc)
+    [] cd = "eck" -> EckDecode(enc)
+    [] cd = "crypt" -> Decrypt(enc)
+    [] cd = "ke" -> KeRefDecode(enc)
+
 (***************************************************************************)
 (* Property section (C14)                                                  *)
 (***************************************************************************)
@@ -448,6 +514,28 @@ CryptRoundTrip(c, keyid) ==
   IN /\ e2 = [err |-> "nil", n |-> e.n, x |-> e.x, y |-> e.y]
      /\ Decrypt([n |-> e2.n, x |-> e2.x, y |-> e2.y]) = [err |-> "nil", n |-> c.n, x |-> c.x, y |-> c.y]
 \* (e) NTS-KE records: see NtsKeStream.tla (KeRoundTrip, SegmentationIndependent)
+\* (f) "for every protocol value" holds for the values of a whole history of calls
+\*     made in one process, not only for a call on its own: the results of earlier
+\*     calls stay valid while the codecs are called again.  d is the observed decoded
+\*     value (HDecode), val the value that was encoded (claims as in (a)-(e)).
+HValueIs(cd, val, d) ==
+  CASE cd \in Msgs -> (Canonical(cd, val) => d = val)
+    [] cd = "nts" -> /\ NtsKindsOK(val, d) /\ NtsValuesOK(val, d)
+                     /\ d.auth_ok /\ (NtsPtEmitted(val) => d.rec = val.pt)
+    [] cd \in {"sck", "eck", "crypt"} -> d.err = "nil" /\ d.n = val.n /\ d.x = val.x /\ d.y = val.y
+    [] cd = "ke" -> (KeClaimed(val) => LET e == KeExpect(val, KeData0) IN d.data = e.data /\ d.err = e.err)
+HEncodingIs(cd, val, enc) ==
+  /\ HValueIs(cd, val, HDecode(cd, enc))
+  /\ (cd \in Msgs /\ Canonical(cd, val)) =>
+        Len(enc) = DeclLen(cd, Ssds(cd, val)) /\ EncodeLay(cd, DecodeLay(cd, enc)) = enc
+  /\ cd = "nts" => WalkAligned(enc, 0)
+\*     a history h: h[i] = [op, cd, val, ret, end] -- call i encoded ("enc") or decoded
+\*     ("dec") the value val with codec cd; ret is its result as it was when the call
+\*     returned, end the same result as the caller finds it at the end of the history
+HistRoundTrip(h) ==
+  \A i \in DOMAIN h : IF h[i].op = "enc" THEN HEncodingIs(h[i].cd, h[i].val, h[i].end)
+                                          ELSE HValueIs(h[i].cd, h[i].val, h[i].end)
+ResultsStable(h) == \A i \in DOMAIN h : h[i].end = h[i].ret
 
 (***************************************************************************)
 (* Model: one case per behaviour (all codecs are pure functions).          *)
